@@ -219,7 +219,7 @@ def gen_schemas(rng, n: int, cycles: bool = False, aliases: bool = True) -> dict
 
 def gen_operation(rng, path: str, method: str, opid: str, schemas: list[str], p_declared: float,
                   tags_mode: str = "any", skip_vars: bool = False, comp_refs: list[str] | None = None,
-                  sse: float = 0.0) -> tuple[dict, list]:
+                  sse: float = 0.0, body_ref: str | None = None) -> tuple[dict, list]:
     """returns (operation node, path-level parameter list contribution).  skip_vars: the path variables are
     declared at path level; comp_refs: names of components.parameters to reference; sse: probability of a
     text/event-stream success response (the only thing that puts two plain imports into one module)"""
@@ -248,7 +248,9 @@ def gen_operation(rng, path: str, method: str, opid: str, schemas: list[str], p_
     rng.shuffle(params)
     if params:
         op["parameters"] = params
-    if method in ("post", "put", "patch") and rng.random() < 0.8:
+    if body_ref is not None:
+        op["requestBody"] = {"$ref": f"#/components/requestBodies/{body_ref}"}
+    elif method in ("post", "put", "patch") and rng.random() < 0.8:
         r = rng.random()
         if r < 0.6 and schemas:
             body = {"application/json": {"schema": {"$ref": f"#/components/schemas/{rng.choice(schemas)}"}}}
@@ -300,7 +302,7 @@ COMPONENT_PARAMS = {
 
 def gen_spec(rng, *, p_declared: float = 0.85, cycles: bool = False, collide: float = 0.0,
              tags_mode: str = "any", n_paths: tuple[int, int] = (1, 4), shared_params: float = 0.0,
-             path_level: float = 0.0, sse: float = 0.0) -> dict:
+             path_level: float = 0.0, sse: float = 0.0, shared_bodies: float = 0.0) -> dict:
     """shared_params: probability that the document has components.parameters (with inline object / array-of-inline-enum
     schemas) referenced from operations of at least two different paths; path_level: probability per path (with
     template variables) that the variables and a header are declared as path-level `parameters`"""
@@ -310,7 +312,10 @@ def gen_spec(rng, *, p_declared: float = 0.85, cycles: bool = False, collide: fl
     k = 0
     used_ids: list[str] = []
     use_shared = rng.random() < shared_params
-    if use_shared:
+    # components.requestBodies (one with an inline object schema, one with a $ref schema) referenced by write
+    # operations of at least two different paths: the promoted body model is named after the referencing operation
+    use_bodies = rng.random() < shared_bodies
+    if use_shared or use_bodies:
         n_paths = (max(2, n_paths[0]), max(2, n_paths[1]))
     chosen = rng.sample(PATH_POOL, rng.randint(*n_paths))
     for pi, path in enumerate(chosen):
@@ -320,7 +325,10 @@ def gen_spec(rng, *, p_declared: float = 0.85, cycles: bool = False, collide: fl
         if plevel:
             item["parameters"] = [{"name": v, "in": "path", "required": True, "schema": {"type": "integer"}} for v in vars_] + \
                                  [{"name": "X-Tenant", "in": "header", "required": rng.random() < 0.5, "schema": {"type": "string"}}]
-        for mi, method in enumerate(rng.sample(["get", "post", "put", "delete"], rng.randint(1, 2))):
+        methods = rng.sample(["get", "post", "put", "delete"], rng.randint(1, 2))
+        if use_bodies and pi < 2 and not ({"post", "put"} & set(methods)):
+            methods[0] = ["post", "put"][pi]
+        for mi, method in enumerate(methods):
             k += 1
             if used_ids and rng.random() < collide:
                 opid = rng.choice(used_ids + [u + "_2" for u in used_ids])
@@ -336,8 +344,11 @@ def gen_spec(rng, *, p_declared: float = 0.85, cycles: bool = False, collide: fl
                     refs = ["Filter", "Sort"] if rng.random() < 0.7 else [rng.choice(["Filter", "Sort"])]
                 elif rng.random() < 0.4:
                     refs = rng.sample(list(COMPONENT_PARAMS), rng.randint(1, 2))
+            bref = None
+            if use_bodies and method in ("post", "put") and (pi < 2 or rng.random() < 0.5):
+                bref = "WidgetBody" if (pi < 2 or not names or rng.random() < 0.6) else "RefBody"
             op, _ = gen_operation(rng, path, method, opid, names, p_declared, tags_mode, skip_vars=plevel,
-                                  comp_refs=refs, sse=sse)
+                                  comp_refs=refs, sse=sse, body_ref=bref)
             item[method] = op
         paths[path] = item
     d: dict[str, Any] = {"openapi": "3.0.3", "info": {"title": "T", "version": "1.0"}, "paths": paths}
@@ -346,6 +357,12 @@ def gen_spec(rng, *, p_declared: float = 0.85, cycles: bool = False, collide: fl
         comps["schemas"] = schemas
     if use_shared:
         comps["parameters"] = json.loads(json.dumps(COMPONENT_PARAMS))
+    if use_bodies:
+        comps["requestBodies"] = {"WidgetBody": {"required": True, "content": {"application/json": {"schema": {
+            "type": "object", "required": ["name"], "properties": {"name": {"type": "string"}, "size": {"type": "integer"}}}}}}}
+        if names:
+            comps["requestBodies"]["RefBody"] = {"required": False, "content": {"application/json": {"schema": {
+                "$ref": f"#/components/schemas/{names[0]}"}}}}
     if comps:
         d["components"] = comps
     return d
@@ -495,6 +512,14 @@ def run_history_case(inp: dict) -> dict:
     finally:
         for r in list(roots.values()) + [base]:
             shutil.rmtree(r, ignore_errors=True)
+
+
+def decide_oracle_only(chk: Check, cases: list[dict], relation: str) -> None:
+    """streams without a model: every oracle failure is a failing input (a violation).  The shared decide() treats
+    `codes=None` as 'model could not be evaluated' and then does not present oracle failures as failing inputs, so an
+    explicit all-zero code list is passed (no mismatch bit, no guard bit) and the cases are not counted as validated."""
+    chk.decide(cases, [0] * len(cases), {}, relation)
+    chk.cov["traces_validated_against_impl"] -= len(cases)
 
 
 def c_params(ps: list) -> str:
@@ -740,7 +765,7 @@ def c_diff_case(c: dict) -> str:
 # =====================================================================================================
 # stream e2e: force run, mutate the existing tree, non-force rerun must fail
 E2E_MUTATIONS = ["modify_py", "delete_py", "stale_py", "crlf", "strip_final_nl", "nonpy_change", "nonpy_delete", "none",
-                 "recreate_shuffled", "registry_garbage"]
+                 "recreate_shuffled", "registry_garbage", "delete_root_init", "delete_root_init_and_edit", "extra_nonpy_dir"]
 
 
 def read_tree(root: Path, sub: Path) -> dict[str, str]:
@@ -794,6 +819,17 @@ def run_e2e_case(inp: dict) -> dict:
         elif mut == "nonpy_delete":
             target = nonpy[pick % len(nonpy)]
             (out / target).unlink()
+        elif mut == "delete_root_init":
+            target = "__init__.py"
+            (out / target).unlink()
+        elif mut == "delete_root_init_and_edit":
+            target = small_py[pick % len(small_py)]
+            (out / "__init__.py").unlink()
+            (out / target).write_text(pristine[target] + "# edited by hand\n")
+        elif mut == "extra_nonpy_dir":
+            target = "notes/TODO.txt"
+            (out / "notes").mkdir()
+            (out / target).write_text("keep me\n")
         elif mut == "registry_garbage":
             target = "core/.exception_registry.json"
             (out / target).write_text(pristine[target] + "junk")
@@ -1095,13 +1131,13 @@ def main(chk: Check, replay: dict | None = None) -> int:
     n_det = 24 if chk.thorough else 7
     for i in range(n_det):
         det_specs.append(gen_spec(rng, p_declared=0.9 if i % 3 else 0.5, cycles=(i % 4 == 3), collide=0.15 if i % 5 == 4 else 0.0,
-                                  shared_params=0.3, path_level=0.3, sse=0.35))
+                                  shared_params=0.3, path_level=0.3, sse=0.35, shared_bodies=0.3))
     det_cases = []
     for spec in det_specs:
         r = run_det(spec, extra_seeds=["3", "4", "5", "17"] if chk.thorough else None)
         det_cases.append({"input": {"kind": "det", "spec": spec}, "obs": r, "oracle_fail": r["hard"]})
     # no model of the whole generator and (since the fix of F09a) no known seed sensitivity: every failure is a violation
-    chk.decide(det_cases, None, {}, "det (no model)")
+    decide_oracle_only(chk, det_cases, "det (no model)")
     dist["det"] = {"documents": len(det_specs), "generator_runs": sum(len(c["obs"]["status"]) for c in det_cases),
                    "generation_errors": sum(1 for c in det_cases if c["obs"]["status"]["seed0"] != "ok"),
                    "seed_sensitive": sum(1 for c in det_cases if c["obs"]["differing"]),
@@ -1112,7 +1148,7 @@ def main(chk: Check, replay: dict | None = None) -> int:
     hist_inputs = [{k: v for k, v in c["input"].items() if k != "kind"} for c in corpus if c["input"].get("kind") == "history"]
     hist_inputs += [{"A": gen_spec(rng, p_declared=1.0, sse=0.3, path_level=0.3)} for _ in range(6 if chk.thorough else 1)]
     hist_cases = [run_history_case(i) for i in hist_inputs]
-    chk.decide(hist_cases, None, {}, "history (no model)")
+    decide_oracle_only(chk, hist_cases, "history (no model)")
     dist["history"] = {"cases": len(hist_cases), "stale_rerun_rejected": sum(1 for c in hist_cases if not c["obs"]["stale_rerun_ok"])}
     n_eval += len(hist_cases)
 
@@ -1138,7 +1174,7 @@ def main(chk: Check, replay: dict | None = None) -> int:
     e2e_cases = [run_e2e_case(i) for i in e2e_inputs]
     e2e_other = [c for c in e2e_cases if not c["modelled"]]      # the run failed for another reason than the diff verdict
     e2e_cases = [c for c in e2e_cases if c["modelled"]]
-    chk.decide(e2e_other, None, {}, "e2e (failure other than 'Differences found': oracle only)")
+    decide_oracle_only(chk, e2e_other, "e2e (failure other than 'Differences found': oracle only)")
     codes = chk.coq_eval(imports, "(tree * tree) * bool", [c_e2e_case(c) for c in e2e_cases], "run_diff", tag="e2e") \
         if chk.model_ok else None
     chk.decide(e2e_cases, codes, {1: "F09g"},
